@@ -96,7 +96,10 @@ impl Drop for Output {
         let _ = match self {
             Output::StdOut => Ok(()),
             Output::Named(target) => std::fs::remove_file(target),
-            Output::InPlace(target) => std::fs::remove_file(target),
+            // The in-place output is the same file as the input: a temporary copy is removed
+            // by `Input::Copied`, and with `--no-copy` it is the user's original file,
+            // which must never be deleted.
+            Output::InPlace(_) => Ok(()),
         };
     }
 }
